@@ -6,8 +6,8 @@ import re
 import framework
 from framework import REPO, ROOT
 
-TIE = ["Nsq.Tie.Life"]
-PROPS = ["Nsq.Props.C08"]
+TIE = ["Nsq.Tie.Life", "Nsq.Tie.TopicDelete"]
+PROPS = ["Nsq.Props.C08", "Nsq.Props.C08TopicDelete"]
 HARNESS = ["e5/replay_test.go", "e5/life_test.go", "e5/inflight_test.go", "e5/conc_test.go", "e5/pairs_test.go"]
 
 # hook schedules exhibited in Lean (Props/C08.lean) and replayed on the real code
@@ -162,7 +162,64 @@ def replay_known(ctx, binp):
             ctx.violation(KEY_ORPHAN, "re-created e#ephemeral:c starts with depth %s (files %s survived the restart)"
                           % (kv.get("recreated_depth"), kv.get("files")),
                           open(os.path.join(ROOT, "corpus", "C08", "known", "orphan_resurrect.sched")).read())
+    topic_delete_replays(ctx, binp, res)
     ctx.corr["hook_replays"] = res
+
+
+# topic deletion racing SUB / channel creation / a second deletion of the same name (Model/TopicDelete.lean)
+TOPIC_DELETE = [
+    # (schedule, failing field, key, model parameter that protects the window)
+    ("topic_delete_races_sub", "zombie_consumer", "topic-delete-races-sub-zombie-consumer", "subGuard"),
+    ("topic_delete_races_sub_early", "zombie_consumer", "topic-delete-races-sub-zombie-consumer:early", None),
+    ("topic_delete_races_create_channel", "files_or_meta", "topic-delete-races-create-channel-leaves-state", None),
+    ("topic_double_delete_unlinks_fresh", "older_delete_hit_fresh_topic", "topic-double-delete-unlinks-fresh-topic", "ownUnlink"),
+]
+
+
+def topic_delete_shape(ctx):
+    import re
+    try:
+        txt = open(os.path.join(ROOT, "lean", "Nsq", "Gen", "Life.lean")).read()
+    except OSError:
+        return {}
+    def fact(name):
+        m = re.search(r"def %s : List String := \[(.*?)\]\n" % name, txt, re.S)
+        return re.findall(r'"((?:[^"\\]|\\.)*)"', m.group(1)) if m else []
+    shape = {"subGuard": fact("subGuard") == ["if (channel.ephemeral && channel.Exiting()) || topic.Exiting()"],
+             "ownUnlink": fact("deleteTopicStmts") == ["if err == errExiting", "if n.topicMap[topicName] == topic"]}
+    ctx.corr["topic_delete_model_of_tree"] = shape
+    return shape
+
+
+def topic_delete_replays(ctx, binp, res):
+    shape = topic_delete_shape(ctx)
+    for name, field, key, guard in TOPIC_DELETE:
+        rc, kv, out = run_sched(ctx, binp, name, timeout=90)
+        res[name] = kv or {"error": out[-300:]}
+        known = os.path.join(ROOT, "corpus", "C08", "known", name + ".sched")
+        sched = open(known if os.path.exists(known) else os.path.join(ROOT, "corpus", "C08", name + ".sched")).read()
+        if not kv:
+            if rc == -9 or "test timed out" in out:
+                ctx.violation("daemon-hangs:" + name, "%s did not finish" % name, sched)
+            else:
+                ctx.broken_ties.append("replay %s did not run (rc=%s)" % (name, rc))
+            continue
+        ctx.evaluations += 1
+        ctx.count_case("sched:" + name, nontrivial=True)
+        obs = " ".join("%s=%s" % x for x in sorted(kv.items()))
+        if kv.get("delete", "ok") != "ok" or kv.get("d1", "ok") != "ok":
+            ctx.violation("daemon-hangs:" + name, "%s: the deletion did not return: %s" % (name, obs), sched)
+            continue
+        if field == "files_or_meta":
+            bad = kv.get("files_left", "0") != "0" or kv.get("listed_in_metadata") == "true"
+        else:
+            bad = kv.get(field) == "true"
+        if name.startswith("topic_delete_races_sub") and kv.get("a_closed") != "true":
+            ctx.violation("delete-consumers-not-closed:" + name, "%s: the consumer subscribed before the deletion was not "
+                          "disconnected: %s" % (name, obs), sched + "# observed: " + obs + "\n")
+        if bad:
+            k = key + (":despite-fix" if guard and shape.get(guard) else "")
+            ctx.violation(k, "%s: %s" % (name, obs), sched + "# observed: " + obs + "\n")
 
 
 def read_streams(ctx, name):
@@ -484,6 +541,10 @@ def run(ctx):
         "channels (channelUpdateChan, pauseChan, notifyChan, diskqueue request channels) is outside the lemma — "
         "the harness watches liveness instead (every operation answers within its deadline)",
         "micro-step model: one live *Message object per message id (ids are unique, C12); message ids are inputs",
+        "no_zombie_fixed (topic deletion vs SUB / re-creation / second deletion) is a theorem about the tree with "
+        "fixes/F19 + F20 (selected by the ties sub_guard_shape / delete_topic_shape); without them DeleteDisconnectsFull "
+        "is false (delete_disconnects_full_false, witnessDouble_leaks) and both witnesses are replayed as known findings; "
+        "delete_topic_closes_attached holds on every tree",
         "no_fault is a theorem about removeFromInFlightPQ as patched by fixes/F7_stale_index.patch; on a tree "
         "without the patch it is false (no_fault_full_false) and the failure is replayed as a known finding",
     ]
